@@ -82,8 +82,17 @@ unsafe fn wr(fd: i32, p: *const u8, n: usize) {
     }
 }
 
+static HANDLING: AtomicUsize = AtomicUsize::new(0);
+
 extern "C" fn handler(_sig: i32) {
     unsafe {
+        // several shard threads can hit the same defect at the same moment: the first one
+        // reports and ends the process, the others wait for that to happen
+        if HANDLING.fetch_add(1, Ordering::SeqCst) != 0 {
+            loop {
+                libc::sleep(1);
+            }
+        }
         let tid = gettid();
         let mut slot = usize::MAX;
         for i in 0..SLOTS {
@@ -137,7 +146,7 @@ pub fn install(root: &str, prop: &str) {
         for sig in [libc::SIGABRT, libc::SIGSEGV, libc::SIGBUS, libc::SIGILL, libc::SIGFPE] {
             let mut sa: libc::sigaction = std::mem::zeroed();
             sa.sa_sigaction = handler as usize;
-            sa.sa_flags = libc::SA_ONSTACK | libc::SA_RESETHAND;
+            sa.sa_flags = libc::SA_ONSTACK;
             libc::sigemptyset(&mut sa.sa_mask);
             libc::sigaction(sig, &sa, std::ptr::null_mut());
         }
